@@ -566,6 +566,9 @@ def oracle(case, res, out, flavour):
         if prod is None:
             viol.append(dict(what='target %s: run succeeded but no task produces it' % w, shape='regex-target-no-producer', case=small))
         else:
+            # a delayed task reached as a dependency needs its trigger first: tasks[name] may have been replaced by
+            # the created task meanwhile, so the `executed` of every initial placeholder comes from the case itself
+            ph_exec = {p: c['executed'] for c in case['creators'] for p in (c['creates'] or [c['fname']])}
             clo, todo = set(), list(tc.selected_tasks)
             while todo:
                 x = todo.pop()
@@ -573,6 +576,8 @@ def oracle(case, res, out, flavour):
                     continue
                 clo.add(x)
                 t = tc.tasks[x]
+                if ph_exec.get(x):
+                    todo.append(ph_exec[x])
                 todo += list(t.task_dep) + list(t.setup_tasks) + list(t.calc_dep)
                 if t.loader and t.loader.task_dep:
                     todo.append(t.loader.task_dep)
